@@ -228,6 +228,16 @@ func callDeferred(f *frame, val []reflect.Value) {
 // runCfg executes a node AST by walking its CFG and running node builtin at each step.
 func runCfg(n *node, f *frame, funcNode, callNode *node) {
 	var exec bltn
+
+	dbg := n.interp.debugger
+	if dbg != nil && n.exec != nil {
+		// The call is left, for the debugger, once its deferred calls have run
+		// (they belong to it, and may stop at breakpoints): exitCall is deferred
+		// first, so that it runs after the unwinding below.
+		dbg.enterCall(funcNode, callNode, f)
+		defer dbg.exitCall(funcNode, callNode, f)
+	}
+
 	defer func() {
 		f.mutex.Lock()
 		f.recovered = recover()
@@ -252,7 +262,6 @@ func runCfg(n *node, f *frame, funcNode, callNode *node) {
 		f.mutex.Unlock()
 	}()
 
-	dbg := n.interp.debugger
 	if dbg == nil {
 		for exec := n.exec; exec != nil && f.runid() == n.interp.runid(); {
 			exec = exec(f)
@@ -263,9 +272,6 @@ func runCfg(n *node, f *frame, funcNode, callNode *node) {
 	if n.exec == nil {
 		return
 	}
-
-	dbg.enterCall(funcNode, callNode, f)
-	defer dbg.exitCall(funcNode, callNode, f)
 
 	for m, exec := n, n.exec; f.runid() == n.interp.runid(); {
 		if dbg.exec(m, f) {
